@@ -51,21 +51,22 @@ Fixpoint nodupb (l : list Z) : bool :=
   match l with [] => true | x :: r => negb (existsb (Z.eqb x) r) && nodupb r end.
 
 (** [t] is framed as an intact record and no later frame is a checkpoint-commit record for an id >= t *)
-Fixpoint framed_harmless (t : Z) (evs : list ev) : bool :=
+Fixpoint framed_harmless (root : list byte) (t : Z) (evs : list ev) : bool :=
   match evs with
   | [] => false
-  | EvTG _ id _ :: post => if id =? t then forallb (harmless t) post else framed_harmless t post
-  | _ :: post => framed_harmless t post
+  | EvTG _ id body :: post =>
+      if id =? t then forallb (harmless t) post && is_ok (parseTGData body root) else framed_harmless root t post
+  | _ :: post => framed_harmless root t post
   end.
 
 (** hypotheses of C06_iii_frames / C06_iii_guarded_nil for every required transaction of the case:
     the scan starts, no TGDATA key twice, replay returns nil, each required id is non-zero, framed, and
-    not followed by a checkpoint-commit frame >= it *)
+    decodable, and not followed by a checkpoint-commit frame >= it *)
 Definition in_domain (k : case) : bool :=
   let o := run k in
   let fr := frames md5 (scanned k) in
   (r_code o =? 0)%nat && nodupb (keys fr)
-  && forallb (fun t => negb (t =? 0) && framed_harmless t fr) (k_req k).
+  && forallb (fun t => negb (t =? 0) && framed_harmless (k_root k) t fr) (k_req k).
 
 (** conclusion: every required transaction is applied (by the MODEL) *)
 Definition model_applies_required (k : case) : bool :=
